@@ -181,23 +181,28 @@ structure EpEv where
   err : Bool
   deriving Repr, DecidableEq
 
-def insertEready (d : Daemon W) (c : Conn W) : Daemon W × Conn W :=
-  if c.inEready then (d, c) else ({ d with eready := c.id :: d.eready }, { c with inEready := true })
+/-- the epoll_state bits of a connection after the event-loop body of MHD_epoll handled one event
+    for it, statement by statement:
+      PRI|ERR|HUP:  ERROR, and IN_EREADY;
+      otherwise EPOLLIN:  READ_READY, and IN_EREADY if it waits for reading or has buffer space;
+                EPOLLOUT: WRITE_READY, and IN_EREADY if it waits for writing -/
+def evConn (c : Conn W) (ev : EpEv) : Conn W :=
+  if ev.err then { c with epError := true, inEready := true }
+  else
+    let c1 : Conn W := if ev.inp then { c with loc := { c.loc with rdReady := true } } else c
+    let c2 : Conn W := if ev.inp && (c1.loc.eli.hasRead || c1.loc.bufSpace) then { c1 with inEready := true } else c1
+    let c3 : Conn W := if ev.out then { c2 with loc := { c2.loc with wrReady := true } } else c2
+    if ev.out && c3.loc.eli.isWrite then { c3 with inEready := true } else c3
 
-/-- the body of the event loop in MHD_epoll for an event of a normal connection -/
+/-- the body of the event loop in MHD_epoll for an event of a normal connection; every
+    EDLL_insert there is guarded by "not yet IN_EREADY" and sets the bit, so the list gets the
+    connection exactly when the bit goes from 0 to 1 (`syncEready`) -/
 def applyEvent (d : Daemon W) (ev : EpEv) : Daemon W :=
   match findConn d.conns ev.id with
   | none => d      -- only connections in the epoll set (active ones) get events
   | some c =>
-    if ev.err then
-      let (d1, c1) := insertEready d { c with epError := true }
-      { d1 with conns := setConn d1.conns c1 }
-    else
-      let c1 : Conn W := if ev.inp then { c with loc := { c.loc with rdReady := true } } else c
-      let (d1, c2) := if ev.inp && (c1.loc.eli.hasRead || c1.loc.bufSpace) then insertEready d c1 else (d, c1)
-      let c3 : Conn W := if ev.out then { c2 with loc := { c2.loc with wrReady := true } } else c2
-      let (d2, c4) := if ev.out && c3.loc.eli.isWrite then insertEready d1 c3 else (d1, c3)
-      { d2 with conns := setConn d2.conns c4 }
+    let c' := evConn c ev
+    syncEready (d.place c' .active .active) c.id c.inEready c'.inEready
 
 /-- "Handle timed-out connections" in MHD_epoll for the default-timeout list
     (here: the order of `connections`): idle from the tail until the first
